@@ -301,21 +301,37 @@ def run(ctx):
         if not entries:
             continue
         junk = gen_junk(rng, enc, len(entries)) if tri % 2 == 0 else []
+        mw_path = None
+        if tri % 3 == 1:
+            # --multiword: a plain word list (never count-prefixed) pre-trains the multiword detector; a password of the
+            # training list splits only because of those words
+            w1, w2 = rng.sample(["horse", "staple", "battery", "purple", "monkey", "dragon", "wizard"], 2)
+            entries = list(entries) + [(w1 + w2, rng.randint(1, 2))]
+            mw_path = os.path.join(sc, "mw%d.txt" % tri)
+            with open(mw_path, "w", encoding=enc, newline="") as f:
+                f.write("\n".join([w1, w2, "correct"]) + "\n")
+            dist["with_multiword_list"] = dist.get("with_multiword_list", 0) + 1
         j = [(i, raw, c) for i, raw, c, _ in junk]
         cov = rng.choice([0.6, 0.6, 1.0, 0.25, 0.0])
         files = {"plain": (T.build_file(rng, entries, enc, "plain", b"\n", j), False),
                  "mixed-crlf": (T.build_file(rng, entries, enc, "mixed", b"\r\n", j), False),
                  "prefix": (T.build_file(rng, entries, enc, "prefix", b"\n", j), True)}
         rep = {"enc": enc, "coverage": cov, "entries": [[p, c] for p, c in entries],
-               "files": {k: [v[0].hex(), v[1]] for k, v in files.items()}}
+               "files": {k: [v[0].hex(), v[1]] for k, v in files.items()},
+               "multiword": open(mw_path, "rb").read().hex() if mw_path else None}
         recs = {}
         for name, (data, prefix) in files.items():
             p = os.path.join(sc, "t%d_%s.txt" % (tri, name.replace("-", "_")))
             with open(p, "wb") as f:
                 f.write(data)
             recs[name] = T.train_inprocess(p, enc, os.path.join(sc, "T%d_%s" % (tri, name.replace("-", "_"))), coverage=cov,
-                                           prefixcount=prefix)
+                                           prefixcount=prefix, multiword=mw_path)
             rec = recs[name]
+            if mw_path and rec.ok:
+                mws = [list(r.verif_seq) for r in rec.multiword_reader]
+                if mws != [[w1, w2, "correct"]]:
+                    vio.append({"sig": "C19:multiword-list-misread", "what": "the --multiword word list was read as %r (%s file, prefixcount=%r)"
+                                % (mws, name, prefix), "replay": rep})
             if rec.exc:
                 vio.append({"sig": "C19:trainer-aborts", "what": "run_trainer raised %s on the %s file" % (rec.exc, name), "replay": rep})
             if len(rec.seqs) == 3:
@@ -347,7 +363,7 @@ def run(ctx):
             for name in ("plain", "prefix"):
                 data, prefix = files[name]
                 p = os.path.join(sc, "t%d_%s.txt" % (tri, name))
-                rc, so, se, tree = T.train_cli(code, p, "C%d_%s" % (tri, name), enc, cov, prefix, hashseed=str(7 + tri))
+                rc, so, se, tree = T.train_cli(code, p, "C%d_%s" % (tri, name), enc, cov, prefix, hashseed=str(7 + tri), multiword=mw_path)
                 dist["cli_runs"] += 1
                 d = tree_diff(recs[name].tree, tree)
                 if d:
@@ -386,7 +402,7 @@ def run(ctx):
             "characters, duplicates) x {plain, all-hex, per-line mixed, plain CRLF, count-prefixed} x {utf-8, latin-1, cp1251, "
             "cp1252} x junk lines (blank, TAB, control, undecodable, bad hex); oracle: every variant yields the logical list "
             "filtered by check_valid, counts the undecodable lines, num_passwords = yielded; whole trainer runs on "
-            "plain / mixed-CRLF / prefixed files diffed byte-wise modulo uuid+filename, three passes compared, CLI vs in-process; "
+            "plain / mixed-CRLF / prefixed files (every third with a --multiword pre-training list that makes one password split) diffed byte-wise modulo uuid+filename, three passes compared, CLI vs in-process; "
             "non-trivial = the file has a $HEX line, a count prefix or a junk line and yields something; distinct by file bytes")
     return {"evaluations": dist["files_read"] + 3 * dist["trainer_triples"], "distinct_nontrivial": nontrivial, "rule": rule,
             "samples": samples, "corr": corr, "violations": vio, "dist": dist}
@@ -408,11 +424,15 @@ def replay(ctx, data):
         return v
     if "files" in inp:
         trees, vio = {}, []
+        mw = None
+        if inp.get("multiword"):
+            mw = os.path.join(sc, "r_mw.txt")
+            open(mw, "wb").write(bytes.fromhex(inp["multiword"]))
         for k, (hx, prefix) in inp["files"].items():
             p = os.path.join(sc, "r_%s.txt" % k.replace("-", "_"))
             open(p, "wb").write(bytes.fromhex(hx))
             trees[k] = T.train_inprocess(p, inp["enc"], os.path.join(sc, "RR_" + k.replace("-", "_")), coverage=inp.get("coverage", 0.6),
-                                         prefixcount=prefix)
+                                         prefixcount=prefix, multiword=mw)
         names = list(trees)
         for k in names[1:]:
             d = tree_diff(trees[names[0]].tree, trees[k].tree)
